@@ -118,7 +118,7 @@ func (op c14Op) apply(s c14State) {
 
 func c14Alphabet(ours string, others []string, reduced bool) []c14Op {
 	var ops []c14Op
-	dbs := []int{0, 1, 5}
+	dbs := []int{0, 1, 12} // a two-digit database number among them
 	for _, src := range append([]string{ours}, others...) {
 		for _, db := range dbs {
 			for _, off := range []int{7, 9} {
